@@ -55,7 +55,7 @@ class Lib:
 
 # ---------------------------------------------------------------------------------- shadow
 class Node:
-    __slots__ = ('sid', 'name', 'value', 'attrs', 'xsd_check', 'children', 'parent', 'el', 'ctor_attrs')
+    __slots__ = ('sid', 'name', 'value', 'attrs', 'xsd_check', 'children', 'parent', 'el', 'ctor_attrs', 'home')
 
     def __init__(self, sid, name, value, attrs, xsd_check, el):
         self.sid = sid
@@ -66,6 +66,7 @@ class Node:
         self.children = []
         self.parent = None
         self.el = el
+        self.home = None
 
     def walk(self):
         yield self
@@ -157,6 +158,13 @@ class World:
         for d, r in self.docs.items():
             if r is n:
                 return [d] + p[::-1]
+        return None
+
+    def _home(self, parent):
+        r = parent.root()
+        for d, x in self.docs.items():
+            if x is r:
+                return d
         return None
 
     def _ancestors(self, node):
@@ -316,11 +324,17 @@ class World:
             return ('ok', None)
         return ('exc', r[1], 'construct')
 
-    def _detached(self, k):
-        """k-th node that was removed / replaced out earlier and is still detached (re-use of a child)."""
-        if not isinstance(k, int) or k < 0 or k >= len(self.removed):
-            raise _Skip('no detached node %r' % (k,))
-        n = self.removed[k]
+    def detached_of(self, doc):
+        """Nodes detached (removed / replaced out) from document `doc`, in order of detachment."""
+        return [n for n in self.removed if n.home == doc]
+
+    def _detached(self, k, doc):
+        """k-th node detached from document `doc` earlier and still detached (re-use of a child).  Indexing per
+        source document keeps a document's lineage self-contained (projection twins)."""
+        pool = self.detached_of(doc)
+        if not isinstance(k, int) or k < 0 or k >= len(pool):
+            raise _Skip('no detached node %r of %r' % (k, doc))
+        n = pool[k]
         if n.parent is not None or any(n is r for r in self.docs.values()):
             raise _Skip('node %d is attached again' % k)
         return n
@@ -328,7 +342,7 @@ class World:
     def op_ADD(self, op):
         parent = self._need(op['p'])
         if 'reuse' in op:
-            child = self._detached(op['reuse'])
+            child = self._detached(op['reuse'], op.get('reuse_doc', op['p'][0]))
             if child is parent or any(x is child for x in self._ancestors(parent)):
                 raise _Skip('cycle')
             self.cap = ('', '')
@@ -362,7 +376,7 @@ class World:
             return ('ok', None) if r[0] == 'ok' else ('exc', r[1], 'remove')
         if 'reuse' in op:
             # fault: remove a child that was detached earlier (removed or replaced out)
-            stale = self._detached(op['reuse'])
+            stale = self._detached(op['reuse'], op.get('reuse_doc', op['p'][0]))
             r = self.call(lambda: parent.el.remove(stale.el))
             return ('ok', None) if r[0] == 'ok' else ('exc', r[1], 'remove')
         if i >= len(parent.children):
@@ -372,7 +386,7 @@ class World:
         if r[0] == 'ok':
             parent.children.pop(i)
             child.parent = None
-            self.removed.append(child)
+            child.home = self._home(parent); self.removed.append(child)
             return ('ok', None)
         return ('exc', r[1], 'remove')
 
@@ -403,7 +417,7 @@ class World:
             parent.children[i] = new
             new.parent = parent
             old.parent = None
-            self.removed.append(old)
+            old.home = self._home(parent); self.removed.append(old)
             return ('ok', None)
         return ('exc', r[1], 'replace')
 
@@ -426,7 +440,7 @@ class World:
                     old = existing[0]
                     parent.children[parent.children.index(old)] = new
                     old.parent = None
-                    self.removed.append(old)
+                    old.home = self._home(parent); self.removed.append(old)
                 else:
                     parent.children.append(new)
                 new.parent = parent
@@ -439,7 +453,7 @@ class World:
                     old = existing[0]
                     parent.children.remove(old)
                     old.parent = None
-                    self.removed.append(old)
+                    old.home = self._home(parent); self.removed.append(old)
                 return ('ok', None)
             return ('exc', r[1], 'dot_set')
         # plain value
@@ -451,7 +465,7 @@ class World:
                 old = existing[0]
                 parent.children.remove(old)
                 old.parent = None
-                self.removed.append(old)
+                old.home = self._home(parent); self.removed.append(old)
             return ('ok', None)
         if r[0] == 'ok':
             if existing:
